@@ -46,7 +46,12 @@ macro_rules! eqord {
 fn one_pair(o: &mut dyn Write, x: &[u8], y: &[u8], kx: usize, ky: usize) {
     let (bn, mn) = (BYTES_REPR_NAMES[kx % N_BYTES_REPRS], MUT_REPR_NAMES[kx % N_MUT_REPRS]);
     let (bn2, mn2) = (BYTES_REPR_NAMES[ky % N_BYTES_REPRS], MUT_REPR_NAMES[ky % N_MUT_REPRS]);
-    let bx = make_bytes(kx, x); let by = make_bytes(ky, y);
+    // every other pair: operands that ALIAS one buffer (same start address, different lengths; clones) where the contents allow it
+    let alias = (kx / 3) % 2 == 0;
+    let (bx, by) = if alias && y.len() <= x.len() && &x[..y.len()] == y { let bx = make_bytes(kx, x); let by = if y.len() == x.len() { bx.clone() } else { bx.slice(..y.len()) }; (bx, by) }
+                   else if alias && x.len() < y.len() && &y[..x.len()] == x { let by = make_bytes(ky, y); let bx = by.slice(..x.len()); (bx, by) }
+                   else { (make_bytes(kx, x), make_bytes(ky, y)) };
+    let bn = if alias { "aliased" } else { bn }; let bn2 = if alias { "aliased" } else { bn2 };
     let (mx, _kx) = make_mut(kx, x); let (my, _ky) = make_mut(ky, y);
     let vy: Vec<u8> = y.to_vec(); let vx: Vec<u8> = x.to_vec();
     let sx: &[u8] = x; let sy: &[u8] = y;
